@@ -532,6 +532,8 @@ def gen_state(rng, name, i, first, faulty=None):
                                                             "VERBOSE_LOGGING", "__doc__"])
         e["form"] = "assign"
     elif faulty == "sig":
+        for p_ in e["params"]:
+            p_[2] = False
         k = rng.random()
         if k < 0.25:
             e["params"] = [["tm", "PosOrKw", False]] + [p for p in e["params"][1:] if p[0] != "tm"]
@@ -649,11 +651,10 @@ def gen_cases(sm, ctx):
 
 # --------------------------------------------------------------------------
 # emission
-KIND_COQ = {k: k for k in KINDS}
 
 
 def coq_param(p):
-    return "{| p_name := %s; p_kind := %s |}" % (coq_string(p[0]), KIND_COQ[p[1]])
+    return "{| p_name := %s; p_kind := %s |}" % (coq_string(p[0]), p[1])
 
 
 def coq_deco(d):
@@ -867,7 +868,8 @@ Print Assumptions impl_reserved_rejected.
     })
 
     def search():
-        order = bad_total + [i for i in range(len(records)) if i not in set(bad_total)]
+        bad_set = set(bad_total)
+        order = bad_total + [i for i in range(len(records)) if i not in bad_set]
         for i in order:
             tags, spec, obs = records[i]
             v = oracle(spec, obs)
